@@ -418,6 +418,11 @@ class List(list, base.Symbolic, pg_typing.CustomTyping):
         return None
 
     if (old_value is pg_typing.MISSING_VALUE
+        and self.max_size is not None and len(self) >= self.max_size):
+      # A new slot would be added (append or insertion).
+      raise ValueError(f'List reached its max size {self.max_size}.')
+
+    if (old_value is pg_typing.MISSING_VALUE
         and isinstance(value, base.Symbolic)
         and value.sym_parent is self):
       # A new slot is added for a node that is already an element of this
